@@ -173,5 +173,14 @@ Definition expected_digests : list (string * string) :=
   ("scheduler.py:Scheduler.on_counting_loop_started", "c46eff612cb909ea119173d4ae7a6cf4");
   ("scheduler.py:Scheduler.on_parallel_loop_started", "2470ea92ebd33c0a056d8f9883359fbe");
   ("scheduler.py:Scheduler.substitute_loop_indexes", "9f7ced06c410254d46a243896e8df181");
-  ("scheduler.py:Scheduler.get_loop_limit", "a113c65b1aa9bac178dba100d7548df2")
+  ("scheduler.py:Scheduler.get_loop_limit", "a113c65b1aa9bac178dba100d7548df2");
+  ("scheduler.py:Scheduler.attach", "6a06e1f67a4ddbca11bb05f43a108e02");
+  ("scheduler.py:Scheduler.detach", "b075bcbc769c726715a2a1d7881b8954");
+  ("scheduler.py:Scheduler.notify", "4a443ce4d35f9388c88a0c2dd2749f11");
+  ("scheduler.py:Scheduler.register_callback_task_started", "d692adcb07460b3e0f9d70599a720eb4");
+  ("scheduler.py:Scheduler.register_callback_service_started", "9b3ae7bf5f99d8409fbde1fa74623661");
+  ("scheduler.py:Scheduler.register_callback_service_finished", "1bec893712d7d9ef40b786aaccef39a2");
+  ("scheduler.py:Scheduler.register_callback_task_finished", "68f7a86e1858cd3c369752a82ff2add6");
+  ("scheduler.py:Scheduler.register_variable_access_function", "e310aeaf76c0491018f27f4e1750eb4c");
+  ("scheduler.py:Scheduler.register_for_petrinet_callbacks", "d39193d4c2e18a5496bedc0135456b3d")
 ].
